@@ -811,15 +811,16 @@ def mon_c16(sc, obs):
 
     def contra(t):
         return any(crossed(sx.q(kb[i][4][0]), l, u) for i in range(tr.n) for (l, u) in t[i].values())
-    r1, r2 = sts[k1], sts[k2]
-    if r1["ret"] is not None and r1["ret"] >= 30 or r2["ret"] is not None and r2["ret"] >= 30:
+    runs = [sts[k1], sts[k2]] + ([sts[-1]] if len(sts) > k2 + 1 and sts[-1]["op"][0] == 5 else [])
+    if any(r["ret"] is not None and r["ret"] >= 30 for r in runs):
         return None
     site = None
-    if contra(r1["after"]) or contra(r2["after"]):
+    if any(contra(r["after"]) for r in runs):
         site = "arresting-on-contradictory-data"
-    d = reads_equal(r1["after"], r2["after"], world)
-    if d:
-        return (f"after reset_bounds(), infer() reproduces the bounds of the first run: object {d[0]} grounding {d[1]} = {d[2]}", f"{d[3]}", site)
+    for n, r in enumerate(runs[1:], 2):
+        d = reads_equal(runs[0]["after"], r["after"], world)
+        if d:
+            return (f"after reset_bounds(), infer() (run {n}) reproduces the bounds of the first run: object {d[0]} grounding {d[1]} = {d[2]}", f"{d[3]}", site)
     return None
 
 
@@ -839,6 +840,7 @@ def gen_c16(ctx, n, fol=True):
         k1 = len(ops) - 1
         ops += [[9]] + mid + [[7], [5, -1, 30]]
         k2 = len(ops) - 1
+        ops += [[7], [5, -1, 30]]      # a third cycle: whatever run 2 inferred must not have become data
         scs.append([40, kb, roots, worlds, data, ops, k1, k2])
         hom = all(all(m == o[2][0] for m in o[2]) for o in kb if o[0] >= 2)
         meta.append({"nobj": len(kb), "kinds": sorted(set(o[0] for o in kb)), "hetero": not hom, "maxar": max(o[3] for o in kb)})
@@ -846,3 +848,73 @@ def gen_c16(ctx, n, fol=True):
 
 
 CHECKS.update({"C02": check_C02})
+
+
+def check_C16(ctx):
+    st, pr = standard_prologue(ctx)
+    scs, meta = gen_c16(ctx, 400 if ctx.quick else 5000)
+    # witness of the recorded known finding (arresting on contradictory data) runs first
+    import os
+    with open(os.path.join(lib.VERIF, "harness", "corpus", "kf_c16_arresting.txt")) as f:
+        kf = sx.loads(f.read().strip())
+    scs.insert(0, kf)
+    meta.insert(0, {"nobj": 3, "kinds": [0, 2], "hetero": False, "maxar": 2})
+    run_fol(ctx, "K6 run 1 / reset_bounds / run 2 / reset_bounds / run 3 on first-order KBs", scs, ["fol_c16", "fol_c15"], hashseeds=(0,))
+    ctx.cov["distribution"] = fdist(meta)
+    try:
+        import checks_prop
+        checks_prop.c16_prop_part(ctx)
+    except (ImportError, AttributeError):
+        pass
+    return ctx.finish("proof", pr, st, rule="run 1 = (queries/probes) + infer(); then has_contradiction / further inference calls; reset_bounds(); run 2 = infer(); canonical dumps of run 1 and run 2 compared as maps with the world default for missing rows")
+
+
+CHECKS.update({"C16": check_C16})
+
+
+# ---------------------------------------------------------------- C06 (first-order part)
+@monitor("fol_c06")
+def mon_fol_c06(sc, obs):
+    """after infer() converged: no node-level call of any formula changes anything; a second infer() = (1 step, 0)"""
+    if whole_error(obs):
+        return ("infer() returns", f"raised error class {obs[1]}", None)
+    tr = Trace(sc, obs)
+    sts = list(tr.steps())
+    if not sts or sts[0]["error"] is not None:
+        return ("infer() returns", "raised", None)
+    if sts[0]["ret"] >= 40:
+        return None
+    kb = tr.kb
+    if any(crossed(sx.q(kb[i][4][0]), l, u) for i in range(tr.n) for (l, u) in sts[0]["after"][i].values()):
+        return None   # contradictory data: arresting (see C07/C16)
+    world = sts[0]["world"]
+    for st in sts[1:]:
+        if st["error"] is not None:
+            return (f"op #{st['n']} {st['op']} completes", "raised", None)
+        if st["op"][0] in (1, 2):
+            d = reads_equal(st["before"], st["after"], world)
+            if d or st["amt"] != 0:
+                return (f"after infer() converged in {sts[0]['ret']} steps, node call {st['op']} changes nothing", f"amount {st['amt']}, changed {d}", None)
+        if st["op"][0] == 5:
+            d = reads_equal(st["before"], st["after"], world)
+            if st["ret"] != 1 or st["amt"] != 0 or d:
+                return ("second infer() takes 1 step, reports zero, changes nothing", f"steps {st['ret']} amount {st['amt']} changed {d}", None)
+    return None
+
+
+def c06_fol_part(ctx):
+    rng = ctx.rng("c06fol")
+    scs, meta = [], []
+    for _ in range(250 if ctx.quick else 3000):
+        kb, worlds, roots, data, hidden = gen_consistent(rng, 3, maxar=2 if rng.random() < 0.7 else 3, weighted=rng.random() < 0.3)
+        ops = [[5, -1, 40]]
+        for i, o in enumerate(kb):
+            if o[0] != 0:
+                ops += [[1, i], [2, i, -1]]
+        ops.append([5, -1, 40])
+        scs.append([40, kb, roots, worlds, data, ops])
+        hom = all(all(m == o[2][0] for m in o[2]) for o in kb if o[0] >= 2)
+        meta.append({"nobj": len(kb), "kinds": sorted(set(o[0] for o in kb)), "hetero": not hom, "maxar": max(o[3] for o in kb)})
+    run_fol(ctx, "K6 first-order infer-to-convergence + node-level sweep + second infer", scs, ["fol_c06"])
+    ctx.cov["fol_distribution"] = fdist(meta)
+    ctx.corpus(["d10_row_creation.py"])
